@@ -72,9 +72,6 @@ class Report:
         than confirmed by hand on the pinned tree is an analysis error - unless the run already found a
         violation, which is reported first."""
         self.floors.append({"rule": rule, "what": what, "count": count, "floor": minimum})
-        if count == 0 and minimum > 0:
-            raise AnalysisError("%s: %s matched no instance at all (anchor vanished; the rule would pass vacuously)"
-                                % (rule, what))
 
     def unmet_floors(self):
         return [f for f in self.floors if f["count"] < f["floor"]]
